@@ -484,6 +484,8 @@ def from_json(
   elif isinstance(json_value, dict):
     if JSONConvertible.TYPE_NAME_KEY not in json_value:
       return {k: child_from(v) for k, v in json_value.items()}
+    # Leave the caller's JSON value untouched, so it can be loaded again.
+    json_value = dict(json_value)
     factory_fn = json_value.pop(JSONConvertible.TYPE_NAME_KEY)
     assert factory_fn is not None
     return factory_fn(json_value, **kwargs)
